@@ -40,6 +40,7 @@ STREAM_CLASS = {
     "colliding_names": "F18-colliding-field-names",
 }
 F18 = "F18-colliding-field-names"
+CANONICAL = ("min", "full", "nulls", "rand", "corpus")
 
 
 # ------------------------------------------------------------------ helpers
@@ -272,6 +273,9 @@ def run_case(g, thorough: bool) -> Case:
         for label, w in muts[10:] if not thorough else []:
             if label == "drop_required":
                 rows.append((label, w))
+        for acc in (g.sc.notes.get("accept") or []):
+            if acc["type"] == t.name:
+                rows.append(("corpus", acc["value"]))
         values[t.name] = rows
     val_idx = {}
     for t in in_types:
@@ -335,6 +339,25 @@ def run_case(g, thorough: bool) -> Case:
         if mm[1:] != real[1:]:
             diff.append({"rebuilds_enums": {"model": mm[1:], "real": real[1:]}})
         cs.k1_diff = diff[:6]
+    # K1d: member names in the generated enums.py vs the model's member_name (what default expressions refer to)
+    etext = files.get("enums.py")
+    if etext is not None:
+        import ast as pyast
+
+        real_members = {}
+        for st in pyast.parse(etext).body:
+            if isinstance(st, pyast.ClassDef):
+                for b in st.body:
+                    if isinstance(b, pyast.Assign) and isinstance(b.value, pyast.Constant):
+                        real_members[(st.name, b.value.value)] = b.targets[0].id
+        keys = sorted(real_members)
+        mm_names = model.batch("C06", [[Sym("member_name"), v] for _e, v in keys], jobs=1)
+        for (en, v), mn in zip(keys, mm_names):
+            cs.c("evaluations")
+            if real_members[(en, v)] != mn:
+                k1_ok = False
+                cs.k1_diff = getattr(cs, "k1_diff", []) + [{"enum": en, "value": v, "model_member": mn,
+                                                             "real_member": real_members[(en, v)]}]
     n_fields = sum(len(c[1]) for c in real[0])
     cs.c("k1_fields", n_fields)
     # ---------------- load the real package
@@ -383,7 +406,7 @@ def run_case(g, thorough: bool) -> Case:
                 m_co, m_va = res[base], res[base + 1]
                 # K2d: the by-name form of the theorem (Model/Inputs.v rename) vs the key renaming done with the real
                 # classes' alias tables (only where names do not collide and the value is schema-valid)
-                if "renamed" in row and label in ("min", "full", "nulls", "rand") and \
+                if "renamed" in row and label in CANONICAL and \
                         not (iv.reachable_inputs(t, v) & collide):
                     if not eq_json(sx_json(res[base + 2]), row["renamed"]):
                         cs.broken("K2 rename (by Python name) vs real classes",
@@ -429,7 +452,7 @@ def run_case(g, thorough: bool) -> Case:
                         cs.broken("K2 validate vs pydantic",
                                   f"{tn} {label} {v!r}: model {mres!r}, pydantic {ra.get('exc') or 'ok'}")
                 # K3a / K3b: the property itself, on the real classes, against the library's verdict
-                canonical = label in ("min", "full", "nulls", "rand")
+                canonical = label in CANONICAL
                 for how in ("alias", "name"):
                     rr = row.get(how)
                     if rr is None:
@@ -564,6 +587,70 @@ def run_case(g, thorough: bool) -> Case:
     return cs
 
 
+def tie_constants(run):
+    """K2e: the constants hard-wired in the model vs /repo's constants.py and base_model.py, derived from source on
+    every run; fails closed when the derivation no longer applies"""
+    import ast as pyast
+    import os
+
+    try:
+        from ariadne_codegen.client_generators import constants as C
+
+        t = model.call("C06", [Sym("tables")])
+        m_map = {row[0]: (row[1] if isinstance(row[1], str) else row[1][0]) for row in t[0]}
+        if m_map != dict(C.INPUT_SCALARS_MAP):
+            run.broken("K2 scalar table", f"model {m_map} vs constants.INPUT_SCALARS_MAP {dict(C.INPUT_SCALARS_MAP)}")
+        if t[1] != [C.OPTIONAL, [C.LIST, C.ANY]]:
+            run.broken("K2 annotation names", f"model {t[1]} vs {C.OPTIONAL}/{C.LIST}/{C.ANY}")
+        want = [C.FIELD_CLASS, ["default_factory", ["lambda", ["validate", "T", ["dict"]]]]]
+        if t[2] != want or C.MODEL_VALIDATE_METHOD != "model_validate":
+            run.broken("K2 default_factory / model_validate names", f"model {t[2]} vs {want} / {C.MODEL_VALIDATE_METHOD}")
+        if t[3] != [C.FIELD_CLASS, [C.ALIAS_KEYWORD, ["str", "a"]], ["default", "None"]]:
+            run.broken("K2 Field(alias=, default=) names", f"model {t[3]} vs {C.FIELD_CLASS}/{C.ALIAS_KEYWORD}")
+        if C.BASE_MODEL_CLASS_NAME != "BaseModel" or C.MODEL_REBUILD_METHOD != "model_rebuild":
+            run.broken("K2 class names", f"{C.BASE_MODEL_CLASS_NAME} {C.MODEL_REBUILD_METHOD}")
+        # bundled BaseModel configuration, read from the source file
+        path = os.path.join(os.path.dirname(C.__file__), "dependencies", "base_model.py")
+        cfg = None
+        for node in pyast.walk(pyast.parse(open(path).read())):
+            if isinstance(node, pyast.Call) and getattr(node.func, "id", "") == "ConfigDict":
+                cfg = {k.arg: pyast.literal_eval(k.value) for k in node.keywords}
+        if cfg is None:
+            run.broken("K2 base_model.py", "no ConfigDict(...) found: cannot derive the model configuration")
+        else:
+            run.extra["base_model_config"] = cfg
+            if cfg.get("populate_by_name") is not True or cfg.get("extra", "ignore") != "ignore" \
+                    or cfg.get("strict", False) or cfg.get("validate_default", False):
+                run.broken("K2 base_model.py configuration",
+                           f"model assumes populate_by_name, extra ignored, lax mode, defaults not validated; source has {cfg}")
+        run.count(6)
+    except Exception as exc:  # noqa
+        import traceback
+
+        run.broken("K2 constants derivation", traceback.format_exc()[-1500:])
+
+
+def corpus_scenarios(run):
+    """corpus/C06/*.json: the witnesses of the `_refuted` theorems and the regression Examples of Properties/C06.v
+    as schemas + values; they go through the same K1/K2/K3 pipeline (SDL and introspected), snake case on and off"""
+    import glob
+    import os
+
+    from ..report import VERIF
+
+    out = []
+    for i, path in enumerate(sorted(glob.glob(os.path.join(VERIF, "corpus", "C06", "*.json")))):
+        e = json.load(open(path))
+        name = os.path.basename(path)[:-5]
+        for k, snake in enumerate((True, False) if e.get("both_cases") else (True,)):
+            out.append(inputs_schema.from_types(name, e["types"], 900000 + 2 * i + k, snake,
+                                                notes={"accept": e.get("accept"), "expect_finding": e.get("expect_finding")}))
+        run.dist("corpus", name)
+    if not out:
+        run.broken("corpus", "corpus/C06 is empty or unreadable")
+    return out
+
+
 def resolve_all(gs):
     """force graphql-core's lazy field maps (and the default coercion they perform) now"""
     for t in gs.type_map.values():
@@ -627,7 +714,8 @@ def run(ctx):
     n_main = 40 if not ctx.thorough else 400
     n_feat = 3 if not ctx.thorough else 25
     base = ctx.seed * 100000
-    scs = []
+    tie_constants(run)
+    scs = corpus_scenarios(run)      # corpus first: the Coq witnesses / regression Examples on the real code
     for i in range(n_main):
         try:
             scs.append(inputs_schema.make(base + i))
@@ -642,7 +730,7 @@ def run(ctx):
     # introspected variants: the same scenarios generated from a loopback HTTP server answering the generator's
     # introspection query with graphql-core (real httpx, nothing patched): all systematic streams + some main ones
     n_intro_main = 8 if not ctx.thorough else 60
-    intro = [s for s in scs if s.features][:] + scs[:n_intro_main]
+    intro = [s for s in scs if s.features][:] + [s for s in scs if not s.features][:n_intro_main]
     srv, urls = serve_schemas([s.sdl for s in intro])
     with workers.Scratch() as sc:
         gens = scen.generate(scs, sc)
@@ -713,5 +801,11 @@ def run(ctx):
                               rep, found_input=bool(rep.get("property_failure_found")))
             else:
                 run.violation(f"{what}: {rep.get('detail', '')[:400]}", rep, found_input=False)
+    # corpus entries that carry an open finding must reproduce it on the real code (else: reported, not an error)
+    for cs in cases:
+        exp = cs.g.sc.notes.get("expect_finding")
+        if exp:
+            hit = any(k == "finding" and c == exp for k, c, *_ in cs.out)
+            run.dist("corpus_findings", f"{cs.g.sc.notes.get('corpus')}: {'reproduced' if hit else 'NOT reproduced'}")
     run.extra["k1_disagreements"] = k1_bad
     run.extra["scenarios_total"] = len(cases)
